@@ -594,7 +594,8 @@ asn_REAL2double(const REAL_t *st, double *dbl_value) {
 	sign = (octv & 0x40);	/* bit 7 */
 	scaleF = (octv & 0x0C) >> 2;	/* bits 4 to 3 */
 
-	if(st->size <= 1 + (octv & 0x03)) {
+	/* Exponent octets announced by bits 2 to 1; case d) announces them later */
+	if(st->size <= 1 + (((octv & 0x03) == 0x03) ? 1 : (octv & 0x03))) {
 		errno = EINVAL;
 		return -1;
 	}
@@ -608,6 +609,7 @@ asn_REAL2double(const REAL_t *st, double *dbl_value) {
 		}
 		/* FIXME: verify constraints of case d) */
 		ptr = &st->buf[2];
+		elen--;	/* As in cases a) to c): octets following the first */
 	} else {
 		ptr = &st->buf[1];
 	}
